@@ -232,6 +232,8 @@ def run_case(case):
         good("smt.init", 0, [ks], lambda: SparseMerkleTree(key_size=ks))
         t, twin = SparseMerkleTree(key_size=ks), SparseMerkleTree(key_size=ks)
         keys = [bytes(rng.randrange(256) for _ in range(ks)) for _ in range(4)]
+        if ks > 1 and rng.random() < 0.5:
+            keys[0] = bytes(ks - 1) + bytes([rng.randrange(1, 256)])     # the tracked key has leading zero bytes
         t.set(keys[0], b"first")
         twin.set(keys[0], b"first")
         proof = SparseMerkleProof(keys[0], b"first", t.branch(keys[0]))
@@ -239,7 +241,10 @@ def run_case(case):
         def state():
             return (t.root_hash, dict(t.db), proof.value, tuple(proof.branch))
 
-        wrong_len = [bytes(ks - 1), bytes(ks + 1)]
+        # wrong-length keys: all zero, and the tracked key itself with a zero byte prepended / its leading zeros stripped
+        # (the same integer, another length)
+        wrong_len = [bytes(ks - 1), bytes(ks + 1), b"\x00" + keys[0]] + \
+                    ([keys[0].lstrip(b"\x00")] if len(keys[0].lstrip(b"\x00")) != ks else [])
         for _ in range(rng.randint(3, 8)):
             k, v = rng.choice(keys), bytes([rng.randrange(256)]) * rng.choice([1, 5])
             ups = t.set(k, v)
